@@ -81,6 +81,11 @@ func (u *unaryNegation) Next(ctx context.Context) ([]model.StepVector, error) {
 	if in == nil {
 		return nil, nil
 	}
+	// Workers are started when the series are loaded; consumers may call Next first.
+	u.once.Do(func() { err = u.loadSeries(ctx) })
+	if err != nil {
+		return nil, err
+	}
 	for i, vector := range in {
 		if err := u.workers[i].Send(0, vector); err != nil {
 			return nil, err
